@@ -37,7 +37,7 @@ def pool(rng, n):
         {"t": "LocalizedText", "text": "a", "locale": None}, {"t": "LocalizedText", "text": None, "locale": "en"},
         {"t": "Enumeration", "v": 1, "string": "On", "name": "E"}, {"t": "Enumeration", "v": 1, "string": "On", "name": "F"},
         {"t": "ListOf", "typename": "Int32", "items": []}, {"t": "ListOf", "typename": "Int32", "items": [{"t": "Int32", "v": 1}]},
-        {"t": "NodeId", "v": [0, "i", "5"]}, {"t": "NodeId", "v": [1, "s", "5"]}, {"t": "EURange", "low": "0.0", "high": "1.0"},
+        {"t": "NodeId", "v": [0, "i", "5"]}, {"t": "NodeId", "v": [0, "i", 5]}, {"t": "NodeId", "v": [1, "s", "5"]}, {"t": "EURange", "low": "0.0", "high": "1.0"},
         {"t": "QualifiedName", "ns": 1, "name": "q"}, {"t": "Variant", "v": {"t": "Int32", "v": 3}},
     ]
     while len(descs) < n:
@@ -235,7 +235,9 @@ def graph_cases(run, n):
                 a1, a2 = g.get_normalized_nodes_df(uri), g2.get_normalized_nodes_df(uri)
                 b1, b2 = g.get_normalized_references_df(uri), g2.get_normalized_references_df(uri)
                 same = (a1.astype(str).values.tolist() == a2.astype(str).values.tolist() and list(a1.columns) == list(a2.columns)
-                        and b1.astype(str).values.tolist() == b2.astype(str).values.tolist())
+                        and b1.astype(str).values.tolist() == b2.astype(str).values.tolist()
+                        # "identical tables": the row labels too (a table sorted by content is labelled 0..n-1 whatever the input order was)
+                        and list(a1.index) == list(a2.index) and list(b1.index) == list(b2.index) and list(b1.columns) == list(b2.columns))
                 if not same:
                     if run.violation(case, {"what": "normalised tables differ after shuffling rows and renumbering ids", "namespace": uri,
                                             "call": "UAGraph.get_normalized_nodes_df / get_normalized_references_df"}):
